@@ -7,7 +7,7 @@ def obligations(tier):
     X = ["x86 intrinsics -> models/x86/vh_x86.h (validated against this CPU on every run)"]
     for lo in range(16, 64, 4):
         obs.append(dict(name="sha256-sse2-schedule-%d-%d" % (lo, lo + 4), harness="sha_accel.c", entry="h_sse2_sched", defs=["USE_SSE2", "TLO=%d" % lo, "THI=%d" % (lo + 4)],
-                        cpu=["X86_SSE2"], model_inc=["x86"], unwind=100, flags=["--no-standard-checks"], backends=["cadical", "kissat"], timeout=to,
+                        cpu=["X86_SSE2"], model_inc=["x86"], unwind=100, flags=["--no-standard-checks"], backends=["cadical", "kissat"] if T else ["cadical"], timeout=to,
                         claim="SHA256_Transform_sse2: W[0..15] = BE words of the block; schedule recurrence holds at t in [%d,%d) over the W[] the real code produced" % (lo, lo + 4), bounds="none", stubs=X))
     obs.append(dict(name="sha256-sse2-rounds", harness="sha_accel.c", entry="h_sse2_rounds", defs=["USE_SSE2"], cpu=["X86_SSE2"], model_inc=["x86"], unwind=100,
                     flags=["--no-standard-checks"], backends=["z3tactic", "cadical"], timeout=to,
@@ -17,7 +17,7 @@ def obligations(tier):
     SH = dict(cpu=["X86_SHANI", "X86_SSSE3"], model_inc=["x86"], unwind=100, replace=["vhm_mm_sha256rnds2_epu32:log_rnds2"])
     for lo in range(16, 64, 4):
         obs.append(dict(name="sha256-shani-schedule-%d-%d" % (lo, lo + 4), harness="sha_accel.c", entry="h_shani_sched", defs=["USE_SHANI", "TLO=%d" % lo, "THI=%d" % (lo + 4)],
-                        flags=["--no-standard-checks"], backends=["cadical", "kissat"], timeout=to,
+                        flags=["--no-standard-checks"], backends=["cadical", "kissat"] if T else ["cadical"], timeout=to,
                         claim="SHA256_Transform_shani: the W+K operands consumed by the 32 SHA256RNDS2 instructions are K[t] + W[t] with W[0..15] = BE block words and the FIPS recurrence at t in [%d,%d)" % (lo, lo + 4),
                         bounds="none", stubs=X + ["SHA256RNDS2 -> logging wrapper around the same model core"], **SH))
     obs.append(dict(name="sha256-shani-round-sequencing", harness="sha_accel.c", entry="h_shani_seq", defs=["USE_SHANI"], cpu=["X86_SHANI", "X86_SSSE3"], model_inc=["x86"], unwind=100,
@@ -36,7 +36,7 @@ def obligations(tier):
                     backends=["cadical"], timeout=to, claim="SHA256RNDS2 model == two FIPS 180-4 rounds in the reference's forms", bounds="none", stubs=X))
     cl = 40 if T else 16
     for nm, cpu in (("64", ["X86_SSE42", "X86_SSE42_64"]), ("32", ["X86_SSE42"])):
-        for lo in range(8, cl + 1, 5):
+        for lo in range(8, (cl if (T or nm == "64") else 12) + 1, 5):
             hi = min(lo + 4, cl)
             for safety in (0, 1):
                 obs.append(dict(name="crc32c-sse42-%s-%s-len%d-%d" % (nm, "memory-safe" if safety else "equals-lfsr", lo, hi), harness="crc_sse42.c", entry="h_sse42",
